@@ -94,7 +94,9 @@ SPEC = TreeSpec(
         "kio.serial.errors.BufferUnderflow; a returned value, any other exception, any other stream access, or "
         "more than 2*len+8 read calls is a violation. evaluations = cuts executed. Non-trivial = cut strictly "
         "inside a field (not on a field boundary of the reference offset map), counted once per distinct "
-        "(class, encoding, cut)."
+        "(class, encoding, cut). Additionally 16 (thorough: 200) classes with a bytes/records field, legacy versions first, "
+        "are given a 68 KiB, a 1 MiB + 4 KiB and a 1.5 MiB payload and cut at ~240 selected positions each (first and last 48 "
+        "bytes, 64 evenly spaced, every multiple of 64 KiB and 1 MiB +-1 from the start of the encoding and of the payload)."
     ),
     profile=MEDIUM,
     check=check,
@@ -107,8 +109,124 @@ SPEC = TreeSpec(
 )
 
 
+# --------------------------------------------------------------------------- large payloads, selected cuts
+
+BIG_SIZES = (70000, (1 << 20) + 4096, 3 << 19)  # 68 KiB, 1 MiB + 4 KiB, 1.5 MiB
+
+
+def big_payload_classes(limit: int) -> list:
+    """Classes with a bytes/records field at depth <= 2: legacy ones first (there the blob can be the last thing read),
+    one per (api, entity type) - the lowest and the highest version."""
+    from .. import describe as D
+
+    def blob_path(cd, depth=0):
+        for f in cd.fields:
+            if f.kind in ("bytes", "records") and not f.array and f.tag is None:
+                return (f.name,)
+            if f.kind == "struct" and depth < 2 and f.tag is None:
+                sub = blob_path(f.struct, depth + 1)
+                if sub:
+                    return (f.name,) + sub
+        return None
+
+    best: dict = {}
+    for api, version, etype, modname in D.walk_version_modules():
+        for cls in D.module_classes(modname):
+            if cls.__type__.name != etype:
+                continue
+            cd = D.describe(cls)
+            bp = blob_path(cd)
+            if bp:
+                lo, hi = best.get((api, etype), (None, None))
+                best[(api, etype)] = ((version, cd, bp) if lo is None or version < lo[0] else lo,
+                                      (version, cd, bp) if hi is None or version > hi[0] else hi)
+    out = []
+    for key in sorted(best):
+        for _v, cd, bp in best[key]:
+            if (cd, bp) not in out:
+                out.append((cd, bp))
+    out.sort(key=lambda t: (t[0].flexible, t[0].path))
+    return out[:limit]
+
+
+def big_tree(cd, path: tuple, size: int) -> dict:
+    from ..refcodec import zero_tree
+
+    tree = zero_tree(cd)
+    node, c = tree, cd
+    for i, name in enumerate(path):
+        f = next(x for x in c.fields if x.name == name)
+        if i == len(path) - 1:
+            node[name] = bytes((j * 131 + 7) % 251 for j in range(997)) * (size // 997 + 1)
+            node[name] = node[name][:size]
+        else:
+            if f.array:
+                from ..refcodec import zero_tree as _z
+
+                node[name] = [_z(f.struct)]
+                node, c = node[name][0], f.struct
+            else:
+                if node[name] is None:
+                    from ..refcodec import zero_tree as _z
+
+                    node[name] = _z(f.struct)
+                node, c = node[name], f.struct
+    return tree
+
+
+def big_cuts(n: int, size: int) -> list[int]:
+    start = n - size  # the blob is (close to) the end of these encodings; exactness does not matter for a cut position
+    cuts = set(range(0, min(n, 48))) | set(range(max(0, n - 48), n))
+    cuts |= {n * k // 64 for k in range(64)}
+    for base in (start, 0):
+        for m in range(1, size // 65536 + 2):
+            for d in (-1, 0, 1):
+                for unit in (65536, 1 << 20):
+                    cuts.add(base + m * unit + d)
+    return sorted(c for c in cuts if 0 <= c < n)
+
+
+def _big_worker(task):
+    path, blob, size = task
+    from .. import describe as D
+
+    cd = D.describe(D.resolve(path))
+    rep = Report(prop=ID, level=SPEC.level, rule=SPEC.rule)
+    tree = big_tree(cd, tuple(blob), size)
+    try:
+        b = ref_encode(cd, tree)
+    except Exception:
+        return rep
+    c = {"big_cuts": 0, "big_inputs": 1}
+    for k in big_cuts(len(b), size):
+        src = ReadOnlySource(b[:k], max_reads=4096)
+        c["big_cuts"] += 1
+        try:
+            v = K.entity_reader(cd.cls)(src)
+        except K.BufferUnderflow:
+            continue
+        except Exception as e:
+            sig, msg = f"big:other-error:{K.exc_signature(e)}", f"{cd.path} with a {size}-byte {'.'.join(blob)}: prefix {k}/{len(b)} raised {e!r}"
+        else:
+            sig, msg = "big:returned-value", f"{cd.path} with a {size}-byte {'.'.join(blob)}: prefix {k}/{len(b)} decoded to an entity ({repr(v)[:120]}..)"
+        from ..engine import Failure
+
+        rep.add_failure(Failure(sig, msg, {"kind": "big", "class": path, "blob": list(blob), "size": size, "cut": k}, 1))
+        break
+    rep.extra["counters"] = c
+    return rep
+
+
 def run(ctx: Ctx) -> Report:
     rep = run_tree_property(ctx, __name__, SPEC)
+    from ..engine import pool_map
+
+    tasks = [(cd.path, list(bp), size) for cd, bp in big_payload_classes(16 if ctx.quick else 200) for size in BIG_SIZES]
+    for sub in pool_map(_big_worker, tasks):
+        for f in sub.failures.values():
+            rep.add_failure(f)
+        for k, v in sub.extra.get("counters", {}).items():
+            rep.extra.setdefault("counters", {})[k] = rep.extra.setdefault("counters", {}).get(k, 0) + v
     c = rep.extra.get("counters", {})
     rep.extra["instances"] = rep.evaluations
     skipped = int(c.get("unencodable", 0)) + int(c.get("skipped_too_long", 0))
@@ -123,6 +241,9 @@ def run(ctx: Ctx) -> Report:
 
 
 def replay(case):
+    if case.get("kind") == "big":
+        sub = _big_worker((case["class"], case["blob"], case["size"]))
+        return [(f.signature, f.message) for f in sub.failures.values()]
     from ..treeprop import replay_tree_case
 
     return replay_tree_case(SPEC, case)
